@@ -1489,6 +1489,13 @@ class _IndexGOMixin:
         Args:
             values: can be a generator.
         '''
+        # validate every value before appending any, so that a rejected extend leaves the index unchanged
+        values = tuple(values)
+        observed = set()
+        for value in values:
+            if self.__contains__(value) or value in observed: #type: ignore
+                raise KeyError(f'duplicate key append attempted: {value}')
+            observed.add(value)
         for value in values:
             self.append(value)
 
